@@ -41,6 +41,12 @@ CHECKS.update({
    note="trusts the 150-line reference predicate written from the documented rules; single faults only (no fault pairs)"),
 })
 
+CHECKS.update({
+ "C06": dict(level="model_checking", ref="3 C06", technique="exhaustive enumeration (E-SHAPE) of every link sequence up to length 3/4 over catalogue networks (contiguous and not) through the real PathTpc::extend; reference geometry walk; differential equality over all extension partitions",
+   text="Every link sequence (including the dummy index) up to the bound over five catalogue networks that carry every elevation/heading/catenary pattern and link lengths from 5 m to 4 km is built through PathTpc::extend (and finish); boundaries, elevation, grade, curve coefficient, cumulative curve resistance, shifted catenary sections and index counts are compared with a reference obtained by walking the route's own points at 7 interior points per segment; all partitions must give the identical path (==); non-contiguous sequences must return Err without panicking.",
+   note="continuous elevations across links; PathTpc::validate is not used as an oracle (it demands bit-exact float identities the property does not state)"),
+})
+
 def main():
     checks = []
     for pid in sorted(CHECKS):
